@@ -366,6 +366,9 @@ func runSMTPGroup(w *tr.Writer, bs []smtpBehaviour, scratch string) {
 	if bs[0].Store == "file" {
 		defer os.RemoveAll(e.dir)
 	}
+	// the sessions' events are written when they end: should the process die, this line says which group was running
+	w.Emit(tr.Ev{"a": "marker", "t": bs[0].ID})
+	w.Flush()
 	var wg sync.WaitGroup
 	for i, b := range bs {
 		wg.Add(1)
